@@ -19,7 +19,8 @@ MIN_NONTRIVIAL = {"quick": 300, "thorough": 3000}
 RULE = ("cases = a container or data-class type (List/Set/FrozenSet/Deque/Tuple[T,...]/Tuple[T1,T2]/Dict[K,V] over element types int, "
         "int>=0 (a Rule), str(max_length 2), float, date, Optional[int], nested one level: List[List[int]], Dict[str,List[int]], "
         "List[Dict[str,int]], Tuple[List[int],...]; Schema/DataClass with 1-4 fields (required / default, per-field on_error, "
-        "typed addition, Field(dependencies=...) between the fields); def f(*args: T)) x one of the 27 (invalid_items, invalid_keys, invalid_values) triples x 6 inputs with "
+        "typed addition, Field(dependencies=...) between the fields; 4%: a field holding Union[A, B] of data classes chosen by Field(discriminator=...), "
+        "given fine / bad-content / unmatched-tag / non-mapping / JSON-text members); def f(*args: T)) x one of the 27 (invalid_items, invalid_keys, invalid_values) triples x 6 inputs with "
         "every subset of <=3 bad positions (first, middle, last, all, none) in list / tuple / set / deque input shapes. Expected "
         "result is rebuilt from per-element probes. Non-trivial = at least one element is offending and a non-throw policy governs "
         "it; distinct = (type shape, policy triple, offending pattern).")
@@ -162,8 +163,40 @@ def gen_pattern(rng, n):
     return "".join(p)
 
 
+DISC_SRC = """
+from typing import Literal, Union
+import utype
+from utype import Schema, DataClass, Field, Options
+class A({base}):
+    kind: Literal['a']
+    x: int
+class B({base}):
+    kind: Literal['b'] = Field(alias_from=['k'])
+    y: str = ''
+class H({base}):
+    __options__ = OPTS
+    item: Union[A, B] = Field(discriminator='kind', required=False{field_kw})
+    n: int = 0
+"""
+
+
+def make_disc_case(rng, pol):
+    """a field holding a union of data classes chosen by Field(discriminator=...): the field follows its policy like any other"""
+    inputs = []
+    for _ in range(6):
+        member = rng.choice([{"kind": "a", "x": 1}, {"kind": "a", "x": "2"}, {"kind": "b", "y": "s"}, {"k": "b"},                 # fine
+                             {"kind": "a", "x": "tall"}, {"kind": "a"},                                                       # valid tag, bad content
+                             {"kind": "zz", "x": 1}, {"x": 1}, {"kind": None}, {"kind": ["a"]},                                   # tag matches no member
+                             5, "text", None if False else [1, 2], '{"kind": "a", "x": "tall"}', '{"kind": "a", "x": 3}'])    # not a mapping / JSON text
+        inputs.append({"item": member, "n": rng.choice([3, "4"])})
+    return {"kind": "disc", "base": rng.choice(["Schema", "DataClass"]), "pol": pol, "on_error": rng.choice([None, None, "exclude", "preserve", "throw"]),
+            "default": rng.random() < 0.3, "inputs": inputs}
+
+
 def make_case(i, rng, tier):
     pol = (rng.choice(POL), rng.choice(POL), rng.choice(POL))
+    if rng.random() < 0.04:
+        return make_disc_case(rng, pol)
     r = rng.random()
     if r < 0.6:
         spec = gen_container(rng)
@@ -339,6 +372,8 @@ def run_case(case, ctx):
 
     pol = case["pol"]
     O = lambda **kw: Options(invalid_items=pol[0], invalid_keys=pol[1], invalid_values=pol[2], **kw)
+    if case["kind"] == "disc":
+        return run_disc(case, ctx, O)
     if case["kind"] == "container":
         spec = case["spec"]
         T = Rule.parse_annotation(annotation(spec))
@@ -497,6 +532,64 @@ def run_case(case, ctx):
             judge(ctx, case, shp, pol, d, exp, out, stats)
     finally:
         _drop(cls)
+
+
+def run_disc(case, ctx, O):
+    import json
+    pol = case["pol"]
+    kw = ""
+    if case["on_error"]:
+        kw += f", on_error={case['on_error']!r}"
+    if case["default"]:
+        kw += ", default=None"
+    ns = {"OPTS": O()}
+    exec(DISC_SRC.format(base=case["base"], field_kw=kw), ns)
+    A, B, H = ns["A"], ns["B"], ns["H"]
+    ctx.count("discriminated_field_cases")
+    try:
+        for d in case["inputs"]:
+            m = d["item"]
+            stats = {"offending": 0, "governed": 0}
+            # the member on its own, under the default policy, decides whether the value is offending
+            mm = m
+            if isinstance(m, str):
+                try:
+                    mm = json.loads(m)
+                except Exception:
+                    mm = m
+            tag = mm.get("kind", mm.get("k")) if isinstance(mm, dict) else None
+            member = {"a": A, "b": B}.get(tag) if isinstance(tag, str) else None
+            probe = run(lambda: member.__from__(dict(mm))) if member is not None else None
+            good = probe is not None and probe.ok
+            p = case["on_error"] or pol[2]
+            n_exp = int(d["n"])
+            if good:
+                exp = ("ok", {"item": ("member", tag), "n": n_exp})
+            else:
+                stats["offending"] = 1
+                if p == "throw":
+                    exp = ("reject", None)
+                else:
+                    stats["governed"] = 1
+                    if p == "preserve":
+                        exp = ("ok", {"item": m, "n": n_exp})
+                    elif case["default"]:
+                        exp = ("ok", {"item": None, "n": n_exp})
+                    else:
+                        exp = ("ok", {"n": n_exp})
+
+            def thunk():
+                inst = H.__from__(dict(d))
+                got = dict(inst) if case["base"] == "Schema" else {k: v for k, v in inst.__dict__.items() if not k.startswith("__")}
+                if isinstance(got.get("item"), (A, B)):
+                    got["item"] = ("member", "a" if isinstance(got["item"], A) else "b")
+                return got
+            out = run(thunk)
+            shp = ("disc", case["base"], case["on_error"], case["default"], type(m).__name__, tag if isinstance(tag, str) else type(tag).__name__)
+            judge(ctx, case, shp, pol, d, exp, out, stats)
+    finally:
+        for c in (H, A, B):
+            _drop(c)
 
 
 def _drop(c):
